@@ -23,7 +23,7 @@ COQ_CHECK = '(forallb Routing.check_case)'
 COQ_EXPLAIN = '(map (fun c => (Routing.check_case c, Routing.explain_case c)))'
 SHARD = 300
 WORKERS = 8
-RULE = ('seeded full-stack scenarios with well-behaved echo peers (reply after 0..timeout+5 ticks, never, server exception, '
+RULE = ('seeded full-stack scenarios with well-behaved echo peers (reply after 0..timeout+5 ticks, never, server exception, reply without a result field, '
         'connection close/reset, chunked replies), 1-3 endpoints, 1-12 concurrent calls with unique (partly non-ASCII) arguments, '
         'pool sizes 1-3 so that connections are reused, the timeout-then-late-reply pattern on a reused connection, I/O faults, '
         'both timer tie orders; one Coq case per connection; non-trivial = a connection carried >= 2 requests or an abandoned one; '
@@ -113,6 +113,23 @@ def queued_expiry(r, i):
   return spec
 
 
+def valueless_replies(r, i):
+  """Replies that carry no result field or an application exception, interleaved with successful calls of the same
+  method on the same client: nothing of an earlier call's reply may reach a later caller."""
+  stack = ['thrift', 'mux'][i % 2]
+  n = r.choice([3, 5, 8])
+  plan = {}
+  for k in range(1, n):
+    x = r.random()
+    if x < 0.45:
+      plan['c%d' % k] = {'act': r.choice(['null', 'null', 'exc']), 'delay': r.choice([0, 1, 3])}
+  spec = {'stack': stack, 'tie': r.choice(['fifo', 'lifo']), 'timeout': 64, 'seed': r.randrange(1 << 30), 'resolution': 1,
+          'endpoints': [{'port': 9001, 'default': {'act': 'reply', 'delay': r.choice([0, 1, 2])}, 'plan': plan, 'reach': []}],
+          'faults': [], 'horizon': 200,
+          'events': [{'at': k * r.choice([0, 1, 4]), 'op': 'call', 'id': 'c%d' % k} for k in range(n)]}
+  return spec
+
+
 def gen_cases(tier, seed):
   from harness import scengen
   n = 360 if tier == 'quick' else 6000
@@ -125,6 +142,9 @@ def gen_cases(tier, seed):
     elif i % 12 == 2:
       spec = queued_expiry(r, i)
       kind = 'mux/queued-expiry'
+    elif i % 12 == 4:
+      spec = valueless_replies(r, i // 12)
+      kind = spec['stack'] + '/valueless-replies'
     elif i % 12 == 1:
       # adversarial mux peer: answers twice / also on unused tags, several calls in flight (monitor only)
       spec = scengen.gen(r, stack='mux', profile='mixed', idx=i)
@@ -182,6 +202,10 @@ def monitor(case, obs):
       arg = obs['args'].get(cid)
       if d['kind'] == 'value' and d['value'] != 'R:' + arg:
         v.append(('wrong-reply', 'call %s with argument %r received %r' % (cid, arg, d['value'])))
+      nulls = any(ep.get('plan', {}).get(cid, {}).get('act') == 'null' or (ep.get('default') or {}).get('act') == 'null'
+                  for ep in case['spec']['endpoints'])
+      if d['kind'] == 'TApplicationException' and nulls and 'unknown result' in d['value']:
+        continue       # a reply without a result field: the caller is told so
       if d['kind'] == 'TApplicationException' and ('boom:' + arg)[:100] not in d['value']:
         v.append(('wrong-reply', 'call %s with argument %r received exception %r' % (cid, arg, d['value'])))
       if d['kind'] == 'value' and cid not in seen:
